@@ -85,7 +85,8 @@ func (r *c20Remote) rec(op string, creds *clstrPB.Credentials) error {
 	return r.err
 }
 func (r *c20Remote) GetNodeMeta(ctx context.Context, addr string, retries int, timeout time.Duration) (*clstrPB.NodeMeta, error) {
-	return &clstrPB.NodeMeta{Url: "http://leader-api:4001"}, nil
+	// every node publishes its own API URL: <name>-raft:4002 -> http://<name>-api:4001
+	return &clstrPB.NodeMeta{Url: "http://" + strings.Replace(strings.TrimSuffix(addr, ":4002"), "-raft", "-api", 1) + ":4001"}, nil
 }
 func (r *c20Remote) Stats() (map[string]any, error) { return map[string]any{}, nil }
 func (r *c20Remote) Execute(ctx context.Context, er *command.ExecuteRequest, nodeAddr string, creds *clstrPB.Credentials, timeout time.Duration, retries int) ([]*command.ExecuteQueryResponse, uint64, error) {
@@ -244,6 +245,110 @@ func TestVerif_C20_HTTPForward(t *testing.T) {
 			(remoteKind == "unauthorized" && isJSON && jr.Error != "")
 		if !told {
 			fail("remote-error-swallowed", "the node the request was forwarded to answered %q (nothing executed), but the caller gets a success status without results and without that error", remoteKind)
+		}
+	})
+}
+
+// c20MovingFollower is a follower whose view of the leader can be changed.
+type c20MovingFollower struct {
+	c20Follower
+	mu     sync.Mutex
+	leader string // raft address
+}
+
+func (f *c20MovingFollower) set(addr string) { f.mu.Lock(); f.leader = addr; f.mu.Unlock() }
+func (f *c20MovingFollower) get() string     { f.mu.Lock(); defer f.mu.Unlock(); return f.leader }
+func (f *c20MovingFollower) LeaderAddr() (string, error) { return f.get(), nil }
+func (f *c20MovingFollower) Leader() (*store.Server, error) {
+	return &store.Server{ID: "n", Addr: f.get()}, nil
+}
+
+// TestVerif_C20_RedirectSeq: "redirected (when the client asks for
+// redirects)" must name the CURRENT leader. One follower service answers a
+// sequence of ?redirect requests (generated operation kinds, gaps 0-500 ms)
+// while its view of the leader changes at a generated position, possibly
+// twice; every 301 must carry the API URL of the node that is the leader at the
+// time of the request, and nothing may be forwarded.
+func TestVerif_C20_RedirectSeq(t *testing.T) {
+	rec := vstat.New(t, "C20", "http-redirect-seq",
+		"rapid: 3-8 requests with ?redirect to one follower http.Service (operation kinds as in http-forward), gaps {0,0,20,100,500} ms, leadership moves to another node before 1-2 generated positions; oracle: every response is 301 to the API URL of the leader known to the store at that moment + original path and query, nothing forwarded; non-trivial = at least one request follows a leadership change; distinct by (kinds, gaps, change positions)")
+	rapid.Check(t, func(rt *rapid.T) {
+		n := rapid.IntRange(3, 8).Draw(rt, "requests")
+		type step struct {
+			op    c20HTTPOp
+			gapMs int
+			move  bool
+		}
+		steps := make([]step, n)
+		moves := 0
+		for i := range steps {
+			steps[i] = step{op: c20HTTPOps[rapid.IntRange(0, len(c20HTTPOps)-1).Draw(rt, "op")], gapMs: rapid.SampledFrom([]int{0, 0, 20, 100, 500}).Draw(rt, "gap-ms")}
+			if i > 0 && moves < 2 && rapid.IntRange(0, 2).Draw(rt, "leader-moves-before") == 0 {
+				steps[i].move = true
+				moves++
+			}
+		}
+		var sb strings.Builder
+		for _, s := range steps {
+			fmt.Fprintf(&sb, "[%s gap=%d move=%v]", s.op.Name, s.gapMs, s.move)
+		}
+		canon := sb.String()
+		rec.Case(moves > 0, canon)
+		rec.Sample(canon)
+
+		st := &c20MovingFollower{leader: "leader0-raft:4002"}
+		remote := &c20Remote{}
+		svc := New("127.0.0.1:0", st, remote, proxy.New(st, remote), nil)
+		svc.logger.SetOutput(io.Discard)
+		if err := svc.Start(); err != nil {
+			rt.Skipf("infrastructure: %v", err)
+		}
+		defer svc.Close()
+		hc := &nethttp.Client{CheckRedirect: func(*nethttp.Request, []*nethttp.Request) error { return nethttp.ErrUseLastResponse },
+			Transport: &nethttp.Transport{DisableKeepAlives: true}, Timeout: 60 * time.Second}
+		gen := 0
+		for i, s := range steps {
+			if s.gapMs > 0 {
+				time.Sleep(time.Duration(s.gapMs) * time.Millisecond)
+			}
+			if s.move {
+				gen++
+				st.set(fmt.Sprintf("leader%d-raft:4002", gen))
+				rec.Label("leader-moved")
+			}
+			target := s.op.Path
+			if strings.Contains(target, "?") {
+				target += "&redirect"
+			} else {
+				target += "?redirect"
+			}
+			req, _ := nethttp.NewRequest(s.op.Method, "http://"+svc.Addr().String()+target, bytes.NewReader([]byte(s.op.Body)))
+			if s.op.CT != "" {
+				req.Header.Set("Content-Type", s.op.CT)
+			}
+			resp, err := hc.Do(req)
+			if err != nil {
+				rt.Skipf("infrastructure: %v", err)
+			}
+			io.Copy(io.Discard, resp.Body)
+			resp.Body.Close()
+			want := fmt.Sprintf("http://leader%d-api:4001%s", gen, target)
+			got := resp.Header.Get("Location")
+			remote.mu.Lock()
+			nf := len(remote.calls)
+			remote.mu.Unlock()
+			rec.Label("op:" + s.op.Name)
+			if resp.StatusCode != 301 || got != want || nf != 0 {
+				sig := "C20/http-redirect-not-to-current-leader{op=" + s.op.Name + "}"
+				if nf != 0 {
+					sig = "C20/http-forwarded-despite-redirect{op=" + s.op.Name + "}"
+				}
+				what := fmt.Sprintf("request %d: status %d Location %q, want 301 to %q (leader changed %d time(s) so far); forwarded calls=%d", i, resp.StatusCode, got, want, gen, nf)
+				if rec.KnownHit(sig, what) {
+					return
+				}
+				rt.Fatalf("%s", rec.Violation(sig, "%s :: %s", what, canon))
+			}
 		}
 	})
 }
